@@ -20,10 +20,11 @@ PID = "C11"
 LEVEL = "exploration"
 DESIGN_REF = "DESIGN.md section 4 / C11"
 CHUNK = 1
-RULE = ("grid: 6 objectives x 3 boxes x 5 starts x 4 projected-gradient directions x "
+RULE = ("grid: 7 objectives (one returning +inf on part of the box) x 3 boxes x 5 starts x 4 projected-gradient directions x "
         "iteration index {0,3} x evaluation cap 1..20 x 2 tolerance triples (complete "
         "product, calls with a non-descent direction skipped), plus history letters {wrapper "
-        "last evaluated another point, objective redefined since the start was evaluated} "
+        "last evaluated another point, objective redefined since the start was evaluated, user "
+        "callables working in place on their argument, wrapper scaling factor 2.5 / 0.4} "
         "for caps {1,2,3,5,20}; script: all 25^d answer "
         "scripts, d<=3 (quick) / d<=4 (thorough), x 3 boxes x iteration {0,3} x caps; every "
         "call runs the real line_search on a real ScalarFunction; oracle: every evaluated "
@@ -49,6 +50,9 @@ OBJ = {
     "lin": (lambda x: float(np.sum(x * np.array([1.0, -0.3]))), lambda x: np.array([1.0, -0.3])),
     "scaled": (lambda x: float(1e6 * x[0] ** 2 + 1e-3 * x[1] ** 2),
                lambda x: np.array([2e6 * x[0], 2e-3 * x[1]])),
+    # +inf beyond a line that cuts the box (a guard inside the user's code)
+    "barrier": (lambda x: float(np.inf) if x[0] + x[1] > 1.2 else float((x[0] - 2.0) ** 2 + (x[1] - 1.5) ** 2),
+                lambda x: np.array([2 * (x[0] - 2.0), 2 * (x[1] - 1.5)])),
 }
 SHIFT = [0.0, 0.013, -0.021, 0.037]
 
@@ -113,14 +117,26 @@ def one_call(f, g, x0, d, lb, ub, it, cap, tol, f_eval=None, hist="fresh"):
     nuser = [0]
 
     def ff(x):
-        pts.append(np.array(x, copy=True))
+        xc = np.array(x, copy=True)
+        pts.append(xc)
         nuser[0] += 1
-        return f(x) + shift[0]
+        if hist == "scribble":
+            x[...] = 1e3 + xc      # a user function that works in place on its argument
+        return f(xc) + shift[0]
 
     def gg(x):
-        pts.append(np.array(x, copy=True))
-        return g(x)
+        xc = np.array(x, copy=True)
+        pts.append(xc)
+        if hist == "scribble":
+            x[...] = -1e3 - xc
+        return g(xc)
     sf = ScalarFunction(ff, x0, (), gg, None, (lb, ub))
+    scale = 1.0
+    if hist.startswith("scale"):
+        # the wrapper carries a scaling factor (gradient scaler in use): the start value,
+        # the slope and every trial value are those of scale*f
+        scale = float(hist[5:])
+        sf.scaling_factor = scale
     f0 = sf.fun(x0)
     g0 = sf.grad(x0)
     # history letter: what happened between the evaluation of the start and the search.
@@ -140,7 +156,7 @@ def one_call(f, g, x0, d, lb, ub, it, cap, tol, f_eval=None, hist="fresh"):
     a = line_search(x0, f0, g0, d, lb, ub, it, 1e8, boxed, sf, tol[0], tol[1], tol[2], cap,
                     -1, None)
     out = []
-    bad = [p for p in pts if (p < lb).any() or (p > ub).any()]
+    bad = [p for p in pts if not ((p >= lb) & (p <= ub)).all()]      # (NaN-strict)
     if bad:
         out.append(("trial_point_outside_box", dict(point=bad[0], lb=lb, ub=ub,
                                                      n_outside=len(bad))))
@@ -153,7 +169,7 @@ def one_call(f, g, x0, d, lb, ub, it, cap, tol, f_eval=None, hist="fresh"):
     if not (0 < a <= am * (1 + 1e-12)):
         out.append(("step_out_of_range", dict(alpha=a, alpha_max=am)))
     xa = np.clip(x_in + a * d_in, lb, ub)
-    fa = (f_eval or f)(xa) + shift[0]
+    fa = ((f_eval or f)(xa) + shift[0]) * scale
     if not fa < f0:
         out.append(("step_not_strictly_lower", dict(alpha=a, f_alpha=fa, f0=f0)))
     return out, dict(res="step", ntrial=ntrial)
@@ -230,7 +246,8 @@ def run(case):
             for it in (0, 3):
                 for cap in range(1, 21):
                     for tl, hs in [(t_, "fresh") for t_ in range(len(TOLS))] + \
-                            ([(0, "moved"), (0, "redef")] if cap in HCAPS else []):
+                            ([(0, "moved"), (0, "redef"), (0, "scribble"), (0, "scale2.5"),
+                              (0, "scale0.4")] if cap in HCAPS else []):
                         sub = dict(part="grid1", var=case["var"], obj=case["obj"],
                                    box=case["box"], start=case["start"], ts=ts, it=it,
                                    cap=cap, tol=tl, hist=hs)
